@@ -190,7 +190,8 @@ Proof.
   unfold withdraw. intros H.
   apply bind_Some in H as (a & Ha & H).
   case_bool_decide as Hto; [discriminate|].
-  destruct (valid_denom d && (0 <? amt)%Z) eqn:Hv; [|discriminate]. cbn [negb] in H.
+  destruct (valid_denom d && (0 <? amt)%Z && (amt <? two64)%Z) eqn:Hv; [|discriminate]. cbn [negb] in H.
+  apply andb_true_iff in Hv as [Hv _].
   apply andb_true_iff in Hv as [Hd Hamt]. apply Z.ltb_lt in Hamt.
   apply bind_Some in H as (b1 & Hb1 & H). apply bind_Some in H as (b2 & Hb2 & H).
   apply bind_Some in H as (base & Hbase & H). injection H as <- <-.
